@@ -3,6 +3,9 @@
 //!  * `capi-enum` enumerated calls (every operator on every operand pair of a
 //!                small pool, every ref/unref/gc sequence up to length 3)
 //!  * `capi-mgr`  scripted manager reference histories
+//!  * `capi-each` one short history per entry point (manager created, the
+//!                call, everything released): attributes a manager reference
+//!                leak, which only shows when the manager should die, to a call
 //!  * `capi-oom`  tiny managers: invalid handles produced by exhausting the
 //!                capacity, passed to every operation in every position
 
@@ -15,6 +18,8 @@ pub fn run<F: CKind>(driver: &str, args: &Args) {
         "capi-enum" => enumerated::<F>(args),
         "capi-mgr" => mgr::<F>(args),
         "capi-oom" => oom::<F>(args),
+        "capi-each" => each::<F>(args),
+        "capi-race" => race::<F>(args),
         d => {
             eprintln!("unknown driver {d}");
             std::process::exit(2);
@@ -494,8 +499,11 @@ fn enumerated<F: CKind>(args: &Args) {
                         }
                         let r = s.pick_cube_dd(Some(a));
                         done!(r);
-                        for &b in &p {
-                            let r = s.pick_cube_dd_set(Some(a), Some(b));
+                        for code in [0u32, 1, 5, 13, 17, 26] {
+                            let lits: Vec<(u32, bool)> = (0..3u32).filter_map(|v| match (code / 3u32.pow(v)) % 3 { 0 => None, d => Some((v, d == 1)) }).collect();
+                            let cs = cube(&mut s, &lits).unwrap();
+                            let r = s.pick_cube_dd_set(Some(a), Some(cs));
+                            s.cunref(cs);
                             done!(r);
                         }
                         s.queries(a);
@@ -805,8 +813,10 @@ fn oom<F: CKind>(args: &Args) {
     let tmp = tmp_of(args, &name);
     let mut calls = 0u64;
     let mut rows = 0u64;
-    let caps: Vec<usize> = if thorough { vec![6, 7, 8, 9, 10, 12, 14, 16, 20, 24] } else { vec![6, 8, 11, 16] };
     let n = 4u32;
+    // a ZBDD manager needs one node per variable for itself
+    let extra = if F::HAS_ZOPS { n as usize + 2 } else { 0 };
+    let caps: Vec<usize> = (if thorough { vec![6, 7, 8, 9, 10, 12, 14, 16, 20, 24] } else { vec![6, 8, 11, 16] }).into_iter().map(|c| c + extra).collect();
     for &cap in &caps {
         for threads in [1u32, 2] {
             let mut s: CSession<F> = CSession::new(&mut out, cap, 4, threads, "oom", &tmp);
@@ -827,7 +837,7 @@ fn oom<F: CKind>(args: &Args) {
                     got_invalid = true;
                 }
             }
-            if !got_invalid {
+            if !got_invalid || s.live().len() < 2 {
                 calls += s.calls;
                 s.finish(Vec::new());
                 continue;
@@ -902,4 +912,164 @@ fn oom<F: CKind>(args: &Args) {
     out.finish();
     let _ = std::fs::remove_dir_all(&tmp);
     write_summary(&dir, &name, &out, json!({"rows":calls,"nontrivial":rows}));
+}
+
+/// one short history per entry point
+fn each<F: CKind>(args: &Args) {
+    let dir = args.get("out", "/verif/out/tmp");
+    let name = format!("capi-each-{}", F::KIND);
+    let mut out = TraceOut::new(&dir, &name, 1500);
+    let tmp = tmp_of(args, &name);
+    let mut calls = 0u64;
+    let mut rows = 0u64;
+    let mut ops: Vec<String> = ["t", "f", "var", "not_var", "not", "ite", "cofactors", "cofactor_true", "cofactor_false",
+        "cof_terminal", "pick_cube_dd", "pick_cube_dd_set", "queries", "obs", "ref", "gc", "add_vars", "add_named_vars",
+        "add_named_vars_iter", "names", "set_var_name", "reorder", "export", "export_named", "export_iter", "import",
+        "dot", "dot_iter", "pool", "containing", "invalid"]
+        .iter()
+        .map(|x| x.to_string())
+        .collect();
+    ops.extend(BIN_OPS.iter().map(|x| x.to_string()));
+    if F::HAS_QUANT {
+        ops.extend(["exists", "forall", "unique", "apply_exists", "apply_forall", "apply_unique", "restrict", "subst", "subst_null"].iter().map(|x| x.to_string()));
+    }
+    if F::HAS_ZOPS {
+        ops.extend(["singleton", "empty", "base", "subset0", "subset1", "change", "union", "intsec", "diff", "make_node"].iter().map(|x| x.to_string()));
+    }
+    for (i, op) in ops.iter().enumerate() {
+        let mut s: CSession<F> = CSession::new(&mut out, 1 << 10, 16, [1u32, 2][i % 2], &format!("each-{op}"), &tmp);
+        s.add_vars(&[None, None, None], false);
+        if op == "reorder" {
+            s.reorder(&[2, 0, 1]);
+        }
+        let x0 = s.var(0, true).unwrap();
+        let x1 = s.var(1, true).unwrap();
+        let a = s.bin("and", Some(x0), Some(x1)).unwrap();
+        let (sx0, sx1, sa) = (Some(x0), Some(x1), Some(a));
+        match op.as_str() {
+            "t" => drop(s.konst(true)),
+            "f" => drop(s.konst(false)),
+            "var" => drop(s.var(2, true)),
+            "not_var" => drop(s.var(2, false)),
+            "not" => drop(s.not(sa)),
+            "ite" => drop(s.ite(sa, sx0, sx1)),
+            "cofactors" => s.cofactors(sa, 0),
+            "cofactor_true" => s.cofactors(sa, 1),
+            "cofactor_false" => s.cofactors(sa, 2),
+            "cof_terminal" => {
+                let t = s.konst(true);
+                for w in 0..3 {
+                    s.cofactors(t, w);
+                }
+            }
+            "pick_cube_dd" => drop(s.pick_cube_dd(sa)),
+            "pick_cube_dd_set" => drop(s.pick_cube_dd_set(sa, sx1)),
+            "queries" => s.queries(a),
+            "obs" => s.obs(),
+            "ref" => {
+                let r = s.cref(a);
+                s.cunref(a);
+                s.cref(r);
+            }
+            "gc" => s.gc(),
+            "add_vars" => s.add_vars(&[None], false),
+            "add_named_vars" => s.add_vars(&[Some("p".into()), None, Some("q".into())], false),
+            "add_named_vars_iter" => s.add_vars(&[Some("p".into()), Some("q".into())], true),
+            "names" => {
+                s.set_var_name(1, "one");
+                s.names_obs();
+            }
+            "set_var_name" => {
+                s.set_var_name(0, "a");
+                s.set_var_name(1, "a");
+                s.set_var_name(0, "");
+            }
+            "reorder" => {
+                if !F::HAS_ZOPS {
+                    s.reorder(&[1, 2, 0]);
+                }
+            }
+            "export" => drop(s.export_dddmp(&[sa, sx0], false, false)),
+            "export_named" => drop(s.export_dddmp(&[sa, sx0], true, false)),
+            "export_iter" => drop(s.export_dddmp(&[sa, sx0], false, true)),
+            "import" => {
+                let (ok, path) = s.export_dddmp(&[sa, sx1], true, false);
+                if ok {
+                    s.import_dddmp(&path, &[a, x1]);
+                }
+            }
+            "dot" => s.dot(&[sa, sx0], false),
+            "dot_iter" => s.dot(&[sa, sx0], true),
+            "pool" => drop(s.bin_in_pool("or", a, x0)),
+            "containing" => {
+                s.containing_manager(a);
+                s.mgr_unref();
+                s.containing_manager(x0);
+            }
+            "invalid" => {
+                s.invalid_noops();
+                s.not(None);
+                s.bin("and", None, sa);
+                s.ite(sa, None, sx0);
+                s.cofactors(None, 0);
+            }
+            "exists" | "forall" | "unique" => drop(s.quant(op, sa, sx0)),
+            "apply_exists" | "apply_forall" | "apply_unique" => drop(s.apply_quant(&op[6..], "or", sa, sx1, sx0)),
+            "restrict" => drop(s.restrict(sa, sx0)),
+            "subst" => {
+                let sub = s.subst_new(&[(0, x1), (2, a)]);
+                s.substitute(sa, &sub);
+                s.substitute(sx0, &sub);
+                s.subst_free(sub);
+            }
+            "subst_null" => s.substitute_null(a),
+            "singleton" | "empty" | "base" => drop(s.zconst(op, 1)),
+            "subset0" | "subset1" | "change" => drop(s.zvar(op, sa, 1)),
+            "union" | "intsec" | "diff" => drop(s.zbin(op, sa, sx1)),
+            "make_node" => {
+                let top = s.snap_top_var();
+                let var = s.zconst("singleton", top).unwrap();
+                let hi = s.zvar("subset0", sa, top).unwrap();
+                let lo = s.zvar("subset0", sx1, top).unwrap();
+                s.make_node(var, hi, lo);
+            }
+            b => drop(s.bin(b, sa, sx1)),
+        }
+        rows += 1;
+        calls += s.calls;
+        s.finish(Vec::new());
+    }
+    out.finish();
+    let _ = std::fs::remove_dir_all(&tmp);
+    write_summary(&dir, &name, &out, json!({"rows":calls,"nontrivial":rows}));
+}
+
+/// experiment (not part of the check): release a manager immediately after
+/// its creation; prints how many managers never terminated
+fn race<F: CKind>(args: &Args) {
+    let api = F::api();
+    let wait_us = args.num("wait", 0);
+    let mut leaks = 0;
+    let rounds = args.num("count", 200);
+    for _ in 0..rounds {
+        let base = crate::csession::os_threads();
+        let before: std::collections::BTreeSet<u64> = std::fs::read_dir("/proc/self/task").unwrap().filter_map(|e| e.ok()?.file_name().to_str()?.parse().ok()).collect();
+        let m = unsafe { (api.manager_new)(1024, 16, 1) };
+        if args.has("settle") {
+            let after: std::collections::BTreeSet<u64> = std::fs::read_dir("/proc/self/task").unwrap().filter_map(|e| e.ok()?.file_name().to_str()?.parse().ok()).collect();
+            crate::csession::settle(&after.difference(&before).copied().collect(), 2000);
+        }
+        if wait_us > 0 {
+            std::thread::sleep(std::time::Duration::from_micros(wait_us));
+        }
+        unsafe { (api.manager_unref)(m) };
+        let t0 = std::time::Instant::now();
+        while crate::csession::os_threads() > base && t0.elapsed().as_millis() < 300 {
+            std::thread::sleep(std::time::Duration::from_micros(200));
+        }
+        if crate::csession::os_threads() > base {
+            leaks += 1;
+        }
+    }
+    println!("kind={} rounds={} wait_us={} never_terminated={}", F::KIND, rounds, wait_us, leaks);
 }
